@@ -783,6 +783,14 @@ def ecpgroup_ops(rng, tier, W):
             add(p, a, b, x, y, 0, 1, 1, "order=0")
             add(p, a, b, x, y, p + 1, 0, 1, "cofactor=0")
             add(p, a, b, x, y, (1 << (W * ((bits + W - 1) // W + 1))) - 1, 1, 1, "order-n+1-words")
+    # odd squares as "moduli": the equality case t^2 = 4p of the comparison (ecpSeemsValidGroup does not ask for a prime p)
+    for k in (5, 7, 11, 255, 65537, (1 << 32) + 15, (1 << 33) + 17):
+        p = k * k
+        a, x = rng.randrange(p), rng.randrange(p)
+        y = rng.randrange(1, p)
+        b = (y * y - x * x * x - a * x) % p
+        for t in (-2 * k - 1, -2 * k, -2 * k + 1, 2 * k - 1, 2 * k, 2 * k + 1):
+            add(p, a, b, x, y, p + 1 + t, 1, 1, "hasse-equality-square-modulus")
     # true group orders on small curves: q = #E / cofactor prime, MOV boundary
     for p in [q for q in SP if 11 <= q <= 400][:: (7 if tier == "quick" else 2)]:
         a, b = rng.randrange(p), rng.randrange(1, p)
@@ -833,7 +841,7 @@ def find_gf2_poly(m, W):
 def ec2group_ops(rng, tier, W):
     ops = []
     pre = "W32 " if W == 32 else ""
-    ms = [W + 3, W + 15, 2 * W - 1, 2 * W + 1, 163 if W == 64 else 3 * W + 3]
+    ms = [W + 3, W + 4, W + 15, 2 * W - 1, 2 * W + 2, 163 if W == 64 else 3 * W + 3]   # even m: (c n - 2^m - 1)^2 = 4 2^m is reachable
     if tier != "quick":
         ms += [W + 5, W + 9, W + 21, 2 * W + 7, 3 * W - 1, 3 * W + 3, 4 * W + 1, 163, 233]
     for m in ms:
